@@ -18,6 +18,9 @@ func (Segment).GetOffset
 // bookkeeping of successful calls per operation ("migrate", "headcheck"): set by the contracts of Migrate, Check and
 // Recover (a definition, not a proof obligation), read by the ordering clauses of Open (C05, C17)
 ghost var gDone map[string]int
+// number of segments in a directory: by definition what Find finds there (set by Find's contract); the offline
+// helpers below do not create or remove segments, so it is constant across them
+ghost var gSegs map[string]int
 ghost var fsContent map[string]int     // abstract content id of the log file at a path
 
 // reads the index file, or rebuilds it from the log when missing/header-only.
@@ -136,7 +139,8 @@ func copyFile
 func (Segment).Backup
     flags noframe only_copy
     requires[copy_ok] (forall r string :: pathJoin(targetDir, r) != s.Log && pathJoin(targetDir, r) != s.Index) && s.Log != s.Index
-    assigns fPath, fsExists, fsContent, fsSize, fsDirty, dirDirty
+    assigns fPath, fsExists, fsContent, fsSize, fsDirty, dirDirty, gDone
+    ensures gDone["backup"] == old(gDone)["backup"] + ite(err == nil, 1, 0)
     // both files of the segment are copied under their own names into the target directory
     ensures[copy_segment] err == nil ==> forall r string :: (pathJoin(s.Dir, r) == s.Log || pathJoin(s.Dir, r) == s.Index) ==> copied(pathJoin(s.Dir, r), pathJoin(targetDir, r))
     ensures[copy_source]  fsContent[s.Log] == old(fsContent)[s.Log] && fsContent[s.Index] == old(fsContent)[s.Index] && fsExists[s.Log] == old(fsExists)[s.Log] && fsExists[s.Index] == old(fsExists)[s.Index]
@@ -289,4 +293,60 @@ func (Segment).ReindexReader
                                   && newIndex[k].Timestamp == ite(params.Times, recTs(log.gfile, k), 0)
                                   && newIndex[k].KeyHash == ite(params.Keys, recHash(log.gfile, k), 0)
 
+
+// ================================================================ directory helpers (segments.go; C07, C17, C20)
+// Check / Recover examine THE HEAD (the last segment found in the directory) under the caller's parameters and
+// return its verdict; Migrate, Backup and Stat visit EVERY segment found, each once.
+
+func CheckDir
+    flags noframe only_dir
+    assigns fPath, gDone
+    assert[dir_find]     arg0 == dir at call Find 1
+    assert[dir_head]     arg0 == segments[len(segments)-1] && arg1 == params at call (Segment).Check 1
+    ensures[dir_verdict] err == nil && gSegs[dir] > 0 ==> gDone["headcheck"] == old(gDone)["headcheck"] + 1
+
+func RecoverDir
+    flags noframe only_dir
+    assigns fPath, fsDirty, fsExists, fsContent, dirDirty, index.Writer.pos, gDone
+    assert[dir_find]     arg0 == dir at call Find 1
+    assert[dir_head]     arg0 == segments[len(segments)-1] && arg1 == params at call (Segment).Recover 1
+    ensures[dir_verdict] err == nil && gSegs[dir] > 0 ==> gDone["headcheck"] == old(gDone)["headcheck"] + 1
+
+func MigrateDir
+    flags noframe only_dir
+    assigns fPath, fsDirty, fsExists, fsContent, dirDirty, index.Writer.pos, gDone
+    assert[dir_find]     arg0 == dir at call Find 1
+    assert[dir_each]     arg0 == segments[rangeindex+1] && arg1 == mversion && arg2 == iversion && arg3 == params at call (Segment).Migrate 1
+    ensures[dir_all]     err == nil ==> gDone["migrate"] == old(gDone)["migrate"] + gSegs[dir]
+    loop 1
+      invariant[dir_count] -1 <= rangeindex && rangeindex < len(segments) && len(segments) == gSegs[dir]
+                               && gDone["migrate"] == old(gDone)["migrate"] + rangeindex + 1
+
+func Backup
+    flags noframe only_dir
+    assigns fPath, fsExists, fsContent, fsSize, fsDirty, dirDirty, gDone
+    assert[dir_each]     arg0 == segments[rangeindex+1] && arg1 == target at call (Segment).Backup 1
+    ensures[dir_all]     err == nil ==> gDone["backup"] == old(gDone)["backup"] + len(segments)
+    loop 1
+      invariant[dir_count] -1 <= rangeindex && rangeindex < len(segments) && gDone["backup"] == old(gDone)["backup"] + rangeindex + 1
+
+func BackupDir
+    flags noframe only_dir
+    assigns fPath, fsExists, fsContent, fsSize, fsDirty, dirDirty, gDone
+    assert[dir_find]     arg0 == dir at call Find 1
+    assert[dir_args]     arg0 == segments && arg1 == target at call Backup 1
+    ensures[dir_all]     err == nil ==> gDone["backup"] == old(gDone)["backup"] + gSegs[dir]
+
+func Stat
+    flags noframe only_dir
+    assert[dir_each]      arg0 == segments[rangeindex+1] && arg1 == params at call (Segment).Stat 1
+    ensures[dir_segments] err == nil ==> ret0.Segments == len(segments)
+    loop 1
+      invariant[dir_count] -1 <= rangeindex && rangeindex < len(segments) && total.Segments == rangeindex + 1
+
+func StatDir
+    flags noframe only_dir
+    assert[dir_find]      arg0 == dir at call Find 1
+    assert[dir_args]      arg0 == segments && arg1 == params at call Stat 1
+    ensures[dir_segments] err == nil ==> ret0.Segments == gSegs[dir]
 @*/
